@@ -340,3 +340,40 @@ def check_returned_arrays(case, rec):
 
 SUBS.append(Sub("returned_arrays", check_returned_arrays, enum=enum_returned_arrays,
                 doc="in-place use of the arrays returned by a rule does not change later queries"))
+
+
+# ------------------------------------------------------------------------------------------
+# (added) frusta: wedges / bricks whose cross-section is scaled by (1 + s t) along the extrusion (t in [0, 1]); straight edges and
+# planar faces, non-constant Jacobian even in first-order wedges. Volume A e_z (1 + s + s^2/3), int z dV = A e_z^2 (1/2 + 2s/3 + s^2/4)
+
+
+def enum_tapered_measure(tier):
+    sq = [[1.0, 0.0], [0.1, 1.1], [-1.0, 0.2], [-0.1, -0.9]]
+    for et in ("PRISM6", "PRISM15", "PRISM18", "HEXA8", "HEXA20", "HEXA27"):
+        for taper in (-0.4, 0.25, 0.6):
+            yield dict(recipe=dict(verts=sq, h=1.2, elemType=et, organised=et.startswith("HEXA"), extrude=[0.25, -0.25, 1.5], layers=2,
+                                   A=None, b=None, perm=None, orphans=0, taper=taper))
+
+
+def check_tapered_measure(case, rec):
+    r = case["recipe"]
+    mesh = gm.build(r)
+    types = gm.mesh_types(mesh)
+    s, ez = float(r["taper"]), float(r["extrude"][2])
+    V = np.array(r["verts"], float)
+    area = 0.5 * abs(float(np.sum(V[:, 0] * np.roll(V[:, 1], -1) - np.roll(V[:, 0], -1) * V[:, 1])))
+    ex_vol = area * ez * (1.0 + s + s * s / 3.0)
+    ex_mz = area * ez * ez * (0.5 + 2.0 * s / 3.0 + s * s / 4.0)
+    sig = dict(elemType=r["elemType"], types=types, taper=s)
+    rec.label("tapered:" + types)
+    for mt in (MatrixType.rigi, MatrixType.mass):
+        vol = sum(float(np.sum(g.Integrate_e(lambda x, y, z: 1.0 + 0 * x, mt))) for g in gm.main_groups(mesh))
+        rec.close(vol - ex_vol, ex_vol, TOL * 10, "tapered_volume", f"{types} taper={s} {mt}: volume {vol!r} vs {ex_vol!r}", **sig)
+    mz = sum(float(np.sum(g.Integrate_e(lambda x, y, z: z + 0 * x, MatrixType.mass))) for g in gm.main_groups(mesh))
+    rec.close(mz - ex_mz, ex_mz, TOL * 10, "tapered_moment", f"{types} taper={s}: int z dV {mz!r} vs {ex_mz!r}", **sig)
+    rec.close(float(mesh.volume) - ex_vol, ex_vol, TOL * 10, "tapered_volume", f"{types} taper={s}: mesh.volume {mesh.volume!r} vs {ex_vol!r}", **sig)
+    rec.close(float(np.asarray(mesh.center)[2]) - ex_mz / ex_vol, ez, TOL * 10, "tapered_centroid", f"{types} taper={s}: center z", **sig)
+    rec.nontrivial(True)
+
+
+SUBS.append(Sub("tapered_measure", check_tapered_measure, enum=enum_tapered_measure, doc="volume, first moment and centroid of frusta"))
